@@ -95,6 +95,31 @@ Theorem C06_sent_ok_sound : forall bs, sent_ok bs = true ->
 Proof. exact sent_ok_sound. Qed.
 Print Assumptions C06_sent_ok_sound.
 
+(* Downstream of the message channel (round 5).  route hands every message of a batch to the message
+   handler of the destination chain, on the route goroutine, which recovers nothing: [route_h h] is
+   route with a handler h that yields, per message, a proposal, an error or a panic.  A batch of the
+   model none of whose messages makes the handler panic is survived, and every message of it that the
+   handler turns into a proposal is written, whatever the handler does with the others ... *)
+Theorem C06_route_h_delivers : forall h p es g k l,
+  run p es = Done g -> In (k, l) g -> (forall m, In m l -> h m <> RPanic) ->
+  exists w, route_h h (map Some l) = Delivered k w /\
+    (forall m, In m l -> h m = RProp -> In m w) /\ (forall m, In m w -> In m l /\ h m = RProp).
+Proof. exact route_h_delivers. Qed.
+Print Assumptions C06_route_h_delivers.
+
+(* ... whereas ONE message on which the handler panics, anywhere in the batch, ends the route
+   goroutine and the process with it: nothing of the batch is written.  So the judge rejects every
+   observed panic of a real destination message handler on a message the listener side produced ... *)
+Theorem C06_route_h_panics : forall h p es g k l m,
+  run p es = Done g -> In (k, l) g -> In m l -> h m = RPanic -> route_h h (map Some l) = RoutePanic.
+Proof. exact route_h_panics. Qed.
+Print Assumptions C06_route_h_panics.
+
+(* ... and what it accepts holds no such message. *)
+Theorem C06_down_ok_sound : forall hp, down_ok hp = true -> forall x, ~ In x hp.
+Proof. exact down_ok_sound. Qed.
+Print Assumptions C06_down_ok_sound.
+
 (* The tree before the repairs violates the property on both retry paths (DESIGN.md section 7
    rows 3 and 4): statements about the explicitly named old definitions. *)
 Theorem C06_retry_v1_old_refuted : exists es m st,
@@ -135,5 +160,12 @@ Example C06_nonvacuous :
   (* de-duplication by nonce alone, by (destination, nonce), or of the byte-identical pair is rejected *)
   spec_ok SubRetry sh false (Done [(3, [(3, (7, 1)); (3, (7, 1))])]) = false /\
   spec_ok SubRetry sh false (Done [(3, [(3, (7, 1)); (3, (7, 1))]); (2, [(2, (7, 1))])]) = false /\
-  spec_ok SubRetry sh false (Done [(3, [(3, (7, 1))]); (2, [(2, (7, 1)); (2, (7, 2))])]) = false.
+  spec_ok SubRetry sh false (Done [(3, [(3, (7, 1))]); (2, [(2, (7, 1)); (2, (7, 2))])]) = false /\
+  (* downstream: a handler that refuses the garbage message (2, (9, 3)) still writes its neighbours' proposals; one
+     that panics on it writes nothing; an observed handler panic is rejected *)
+  let h := fun m : msg => if N.eqb (nonce m) 9 then RErr else RProp in
+  let hpanic := fun m : msg => if N.eqb (nonce m) 9 then RPanic else RProp in
+  route_h h (map Some [(2, (1, 1)); (2, (9, 3)); (2, (3, 1))]) = Delivered 2 [(2, (1, 1)); (2, (3, 1))] /\
+  route_h hpanic (map Some [(2, (1, 1)); (2, (9, 3)); (2, (3, 1))]) = RoutePanic /\
+  down_ok [] = true /\ down_ok [(1, (2, (9, 3)))] = false.
 Proof. vm_compute. repeat split. Qed.
